@@ -171,7 +171,16 @@ class HeadInPlace:
         self.f.close()
         return False
 
+class Conc:
+    """hooks for the two-savers family of corr_C14 (two threads saving the position of one RollLog at the same time)"""
+    pre_rename = post_rename = tmp_opened = None
+CONC = Conc()
+
 def shim_open(path, mode='r', *a, **kw):
+    if CONC.tmp_opened is not None and isinstance(path, str) and path.endswith('.tmp') and 'w' in mode:
+        f = real_open(path, mode, *a, **kw)
+        CONC.tmp_opened()
+        return f
     if PLAN.k is not None and isinstance(path, str) and path.endswith('head.json') and ('+' in mode or 'w' in mode or 'a' in mode):
         if PLAN.k == 0:
             raise Crash()
@@ -208,7 +217,11 @@ class OsProxy:
             return TmpFile(f)
         return f
     def rename(self, a, b):
+        if CONC.pre_rename is not None:
+            CONC.pre_rename(a, b)
         real_os.rename(a, b)
+        if CONC.post_rename is not None:
+            CONC.post_rename(a, b)
         if PLAN.k in (4, 5):
             raise Crash()
     replace = rename
